@@ -19,6 +19,12 @@ T = {
  "C12-m2": ("C12", "capture takes its variable name with ^[A-Za-z_]\\w*: names with a hyphen or a trailing ? bind a truncated name", "c12.model, after the generator learned hyphenated / ?-suffixed names; missed before"),
  "C14-m1": ("C14", "RenderFile treats an empty read as 'not on disk': a zero-byte file no longer takes precedence over cached source", "c14.graph"),
  "C14-m2": ("C14", "include takes a 'plain quoted file name' fast path when the argument starts and ends with the same quote, swallowing filtered expressions such as \"card\" | append: \".html\"", "c14.graph"),
+ "C15-m1": ("C15", "concat becomes append(a, b...): with a []any receiver that has spare capacity the second concat of the same receiver overwrites the first result and the caller's backing array", "c15.apply (input-modified: the fingerprint now covers a slice's spare capacity; bindings get random capacity; the filter is applied twice) - missed before those three additions"),
+ "C15-m2": ("C15", "sort by key uses the shared property lookup, so for the key names size/first/last an entry lacking the key is given its entry count instead of sorting first", "c15.apply after records got the key names size/first/last and extra entries; missed before"),
+ "C16-m1": ("C16", "slice normalises a negative start with the byte length instead of the character count: \"aé\" | slice: -1", "c16.apply"),
+ "C16-m2": ("C16", "truncatewords' 'only white space follows' guard simplified to end == len(s): a string of exactly n words that ends in white space gets the ellipsis", "c16.apply"),
+ "C18-m1": ("C18", "Equal takes a same-type shortcut for comparable types: two [N]any arrays are compared with Go ==, so a Drop / int8 / float element no longer equals the plain value", "c18.equality (added after the first run missed it)"),
+ "C18-m2": ("C18", "uniq filters in place (result = a[:0]) and overwrites a bound []any", "c18.programs (also c15.apply input-modified, c03.history)"),
  "C17-m1": ("C17", "round gains a fast path math.Floor(n+0.5) for places == 0: odd integers between 2^52 and 2^53 round to their even neighbour", "c17.apply"),
  "C17-m2": ("C17", "ValueOf interns float 0.0/1.0 as int 0/1: divided_by with a float divisor of exactly 1.0 does integer division", "c17.apply"),
 }
